@@ -706,6 +706,10 @@ def simplify_call(path, args, trait_path=None):
     if path in ("std::result::Result::unwrap", "std::result::Result::<T, E>::unwrap", "core::result::Result::unwrap") or path.endswith("Result::unwrap") or path.endswith("Result::expect"):
         if args and args[0][0] == "call" and args[0][1] == "stdcode::serialize" and len(args[0][2]) == 1:
             return ("call", "stdcode::StdcodeSerializeExt::stdcode", (args[0][2][0],))
+    if path in ("std::mem::replace", "core::mem::replace") and len(args) == 2:
+        return args[0]                  # the value of `mem::replace(&mut x, v)` is x as it was before the call (the write is seen by K7)
+    if path in ("std::mem::take", "core::mem::take") and len(args) == 1:
+        return args[0]
     if len(args) == 1 and (path.endswith("Vec::as_slice") or path.endswith("Vec::<T, A>::as_slice") or path.endswith("::as_slice")):
         return args[0]
     if len(args) == 2 and path.split("::")[-1] == "index" and "ops::Index<" in path:
